@@ -58,8 +58,15 @@ class _Err(Exception):
     pass
 
 
+def _f(x):
+    try:
+        return float(x)
+    except OverflowError:
+        return float("inf") if x > 0 else float("-inf")
+
+
 def fl(p):
-    return (float(p[0]), float(p[1]))
+    return (_f(p[0]), _f(p[1]))
 
 
 class _Parser(object):
@@ -321,7 +328,7 @@ class _Parser(object):
                     if p is None:
                         raise _Err()
                     q = self.pt(p[0], p[1], rel)
-                seg = Seg("Arc", fl(self.cur), fl(q), arc=(float(rx), float(ry), float(rot), fa, fs), cmd=c,
+                seg = Seg("Arc", fl(self.cur), fl(q), arc=(_f(rx), _f(ry), _f(rot), fa, fs), cmd=c,
                           group=g, closing=closing)
                 self.emit(seg, q)
                 if closing:
